@@ -16,9 +16,39 @@ ASSUMPTIONS = [
 ]
 
 
+def synthetic_wait_cases(res):
+    """"A synthetic event returned by before_sleep forces a non-blocking wait": real lifecycle sources in every order, the
+    timeout actually handed to the poller recorded by the poll hook (harness `vh timing`, C12's judge)."""
+    import os
+    import common as C
+    from props import c12
+    cases = [c for c in c12.gen_cases() if any(l.startswith("source life") for l in c)]
+    traces = c12.run_impl(cases)
+    for c, tr in zip(cases, traces):
+        hard, _ = c12.judge(c, tr)
+        hard = [h for h in hard if "synthetic" in h]
+        if hard:
+            res.cov["impl_monitor_failures"] += 1
+            if len(res.violations) < 3:
+                d = C.write_replay(res.pid, {"case.timing": "\n".join(c) + "\n", "impl.obs": "\n".join(tr) + "\n", "verdict.txt": hard[0] + "\n"})
+                res.violations.append(("C14 on the real loop: %s   [%s]" % (hard[0], " ; ".join(c[1:-1])), os.path.join(d, "case.timing")))
+    res.cov["synthetic_wait_cases"] = len(cases)
+    res.cov["evaluations"] = res.cov.get("evaluations", 0) + len(cases)
+
+
 def run(res, tier, seed, search=False, have_drv=True):
     coreprop.run_property(res, PID, PROFILES, tier, seed, search, have_drv)
+    synthetic_wait_cases(res)
+    if res.violations:
+        res.broken = []
 
 
 def replay(path):
+    if path.endswith(".timing"):
+        from props import c12
+        case = [l.rstrip("\n") for l in open(path) if l.strip()]
+        tr = c12.run_impl([case])[0]
+        hard = [h for h in c12.judge(case, tr)[0] if "synthetic" in h]
+        print("\n".join(tr)); print("C14:", hard)
+        return 1 if hard else 0
     return coreprop.replay(path, PID)
